@@ -61,6 +61,12 @@ RULE = ("model tie: (1) utils.copypath run on small real filesystems built in a 
         "k MiB + r -- at piece lengths 256 KiB .. 16 MiB, v1 / v2 / hybrid metafiles of every creator and of the "
         "reference encoder: every file written must have the recorded length and be byte-identical to a candidate, whatever buffer the "
         "copy goes through.  "
+        "PATH ARGUMENTS (profile 'paths', rebuild_common.spell_destination): sibling search directories one of whose names is a "
+        "string prefix of another ('parts' / 'parts2', 'disk1' / 'disk10'), the destination spelled './../../x/y' or '../../x/y' from inside a "
+        "search directory, './../x/y' from the parent of the search directories, './.hidden', './../.hidden' from the folder of the "
+        "metafiles, './x/y/', 'x/./y', './/x/y', absolute with a '..' segment or a trailing separator, a sibling of the search directories whose "
+        "name extends a search directory's name ('parts-out' next to 'parts'); mostly through the command line: everything written lies under the directory the shell "
+        "would resolve (every mutation event targets it), nothing changes in the search directories or the metafiles.  "
         "Non-trivial = distinct case in which the destination was pre-populated or changed.")
 TRUSTED_BASE = rc.TRUSTED_BASE + [
     "sys.addaudithook reports every file-system mutation Python code performs (checked on each run: every path the snapshots show as "
@@ -242,7 +248,7 @@ def evaluate(ctx, case, res):
     # the audit trail must be complete: what the snapshots show as new/changed was announced by an event
     targets = {ev[1] for ev in (res["reply1"].get("events") or [])}
     rd = os.path.realpath(dest)
-    unseen = [k for k in changed if os.path.join(rd, k) not in targets]
+    unseen = [k for k in changed if os.path.normpath(os.path.join(rd, k)) not in targets]      # ('.' = the destination itself, created by the tool)
     if unseen:
         ctx.broken.append(f"audit hook did not report the mutation of {rc.sanitize(unseen[:3])} (case seed {case['seed']})")
     cl = set(case["classes"])
@@ -430,7 +436,7 @@ def e2e(ctx):
     plan = ["c14"] * (70 if quick else 1100) + ["boundary"] * (6 if quick else 80) + ["boundary-only"] * (6 if quick else 80) + \
         ["absent"] * (8 if quick else 100) + ["namesake"] * (10 if quick else 120) + \
         ["escape"] * (30 if quick else 500) + ["othername"] * (8 if quick else 120) + ["metafolder"] * (8 if quick else 120) + \
-        ["utf8pieces"] * (2 if quick else 24)
+        ["utf8pieces"] * (2 if quick else 24) + ["paths"] * (24 if quick else 240)
     # payloads at SCALE (rebuild_common.scale_plan: candidates of 1 .. 6 MiB, piece lengths 256 KiB .. 4 MiB and more): copies larger
     # than any buffer a copy loop would use, judged by the same snapshots and the same rules
     plan += rc.scale_plan(not quick, "scale14")
